@@ -124,6 +124,58 @@ def trigger(c):
     return z3.And(z3.Or(started, none), started == cond)
 
 
+def left_by_last_call(c, field):
+    """value of a send-side field right before this activation emits its packet: the entry value, or what the last
+    _send_kexinit() / nested send_packet(MSG_IGNORE) call on this path left behind"""
+    base = c.old(field)
+    for x in c.calls():
+        if x['key'] in ('self._send_kexinit', 'self.send_packet'):
+            v = (x.get('sets') or {}).get(field)
+            if v is not None:
+                base = v.z
+    return base
+
+
+def kexinit_flag_set_by_trigger(c):
+    """the re-key trigger records that OUR KEXINIT for the coming exchange is out: an activation that started an
+    exchange itself leaves _kexinit_sent True (otherwise the peer's answering KEXINIT is answered with a second one and
+    the peer disconnects); an activation that made no call leaves the flag alone"""
+    own = [x for x in c.calls('_send_kexinit') if x['exc'] is None]
+    nested = [x for x in c.calls() if x['key'] == 'self.send_packet']
+    if own:
+        return c.new('_kexinit_sent')
+    if not nested:
+        return c.new('_kexinit_sent') == c.old('_kexinit_sent')
+    return z3.BoolVal(True)         # nested call: its own (log-free) clause below applies
+
+
+def kexinit_flag_follows_exchange_start(c):
+    """log-free form (callers / the nested call): an activation during which an exchange started (_kex_complete went
+    from True to False) leaves _kexinit_sent True, and the flag is set for no other reason"""
+    began = z3.And(c.old('_kex_complete'), z3.Not(c.new('_kex_complete')))
+    return z3.And(z3.Implies(began, c.new('_kexinit_sent')),
+                  z3.Implies(c.new('_kexinit_sent'), z3.Or(c.old('_kexinit_sent'), began)))
+
+
+def emitted_packet_len(c):
+    """len(padlen byte || payload || padding) of the packet this activation emits (the term wire_format checks)"""
+    rnd = [x for x in c.calls() if x['key'] == 'os.urandom']
+    comp = [x for x in c.calls() if x['key'].endswith('.compress')]
+    orig = z3.Concat(z3.Unit(c.arg('pkttype')), joinb(z3.Empty(BytesS), c.arg('args')))
+    payload = comp[0]['ret'].val.z if comp else orig
+    return 1 + z3.Length(payload) + z3.Length(rnd[0]['ret'].z)
+
+
+def bytes_counted(c):
+    """re-key by byte limit: every packet emitted while no exchange is running is added to the byte counter the
+    trigger compares with the limit (RFC 4253 9 / 4344 3: re-key after a bounded amount of data under one key set);
+    a packet emitted during an exchange is not counted (the counter was reset when the exchange started)"""
+    if not own_sends(c):
+        return z3.BoolVal(True)
+    base = left_by_last_call(c, '_rekey_bytes_sent')
+    return c.new('_rekey_bytes_sent') == z3.If(c.new('_kex_complete'), base + emitted_packet_len(c), base)
+
+
 def seq_before_emission(c):
     """the send counter right before this activation emits its packet: the entry value, or what the last
     _send_kexinit() / nested send_packet(MSG_IGNORE) call on this path left behind"""
@@ -232,6 +284,11 @@ def quiet_during_exchange(c):
                              c.new('_server_kexinit') == c.old('_server_kexinit')))
 
 
+def K2(c, old=True):
+    f = c.old if old else c.new
+    return z3.Implies(f('_kexinit_sent'), z3.Not(f('_kex_complete')))
+
+
 def kexinit_sent_means_running(c):
     """K2: `_kexinit_sent => not _kex_complete` is preserved (our KEXINIT for the coming exchange is out)"""
     return z3.Implies(z3.Implies(c.old('_kexinit_sent'), z3.Not(c.old('_kex_complete'))),
@@ -303,7 +360,10 @@ _recursive_stub.spec_getter = lambda: send_packet
 send_packet = _mk_send_packet(
     'C11',
     ensures=[('queued-xor-emitted', never_both), ('seq-rule', seq_rule),
-             ('mac-over-the-pre-increment-sequence-number', mac_seq)],
+             ('mac-over-the-pre-increment-sequence-number', mac_seq),
+             ('rekey-trigger-leaves-kexinit_sent-set', kexinit_flag_set_by_trigger),
+             ('kexinit_sent-set-iff-an-exchange-started-in-this-activation', kexinit_flag_follows_exchange_start),
+             ('emitted-bytes-are-counted-towards-the-rekey-limit', bytes_counted)],
     always=[('kex-gate', gate), ('forbidden-types-are-deferred', must_defer), ('rekey-trigger', trigger),
             ('kex-messages-never-queued', kex_progress)])
 
@@ -345,16 +405,20 @@ send_deferred = Spec(
                                  '_kexinit_sent', '_deferred_packets', '_client_kexinit', '_server_kexinit',
                                  'ghost_resubmitted', 'ghost_requeued'],
                        invariant=lambda c: z3.And(
-                           send_inv(c, old=False),
+                           send_inv(c, old=False), K2(c, old=False),
                            # ghost: the packets resubmitted so far are exactly the first i queued ones, in order
                            c.new('ghost_resubmitted') == z3.Extract(c.extra['iter'].z, 0, c.extra['i']),
                            # whatever a nested key exchange re-queued during the flush is still queued, in order
                            c.new('_deferred_packets') == c.new('ghost_requeued')))},
-    requires=lambda c: z3.And(send_inv(c), z3.Length(c.old('ghost_resubmitted')) == 0,
+    requires=lambda c: z3.And(send_inv(c), K2(c), z3.Length(c.old('ghost_resubmitted')) == 0,
                               z3.Length(c.old('ghost_requeued')) == 0,
                               all_types_ok(c.old('_deferred_packets'))),
+    modifies=['_kex_complete', '_rekey_bytes_sent', '_rekey_time', '_send_seq', '_kexinit_sent',
+              '_deferred_packets', '_client_kexinit', '_server_kexinit', 'ghost_resubmitted', 'ghost_requeued'],
     ensures=[('fifo-all-once', lambda c: c.new('ghost_resubmitted') == c.old('_deferred_packets')),
              ('requeued-packets-survive', lambda c: c.new('_deferred_packets') == c.new('ghost_requeued'))],
+    always=[('class-inv', lambda c: send_inv(c, old=False)),
+            ('kexinit_sent-only-while-an-exchange-runs', lambda c: K2(c, old=False))],
     raises={'ProtocolError': True, 'CompressionError': True,
             'AssertionError': lambda c: z3.And(c.old('_gss_kex'), z3.Not(opt_set(c, '_gss')))})
 send_deferred.classes['SSHConnection'] = dict(send_deferred.classes['SSHConnection'],
